@@ -1735,3 +1735,125 @@ Proof.
     + apply IH. intros c' Hc'. apply Hall. right. exact Hc'.
   - intros cl' Hp. unfold project_warnings. apply Permutation_map. exact Hp.
 Qed.
+
+(** * The two passes over whole trees *)
+
+Lemma path_eqb_eq : forall p q, path_eqb p q = true <-> p = q.
+Proof.
+  induction p as [|x r IH]; destruct q as [|y s]; cbn [path_eqb]; split; intros H; try reflexivity; try discriminate.
+  - apply andb_true_iff in H. destruct H as [H1 H2]. apply str_eqb_eq in H1. apply IH in H2. subst. reflexivity.
+  - inversion H; subst. rewrite str_eqb_refl. apply IH. reflexivity.
+Qed.
+Lemma path_mem_In : forall p l, path_mem p l = true <-> In p l.
+Proof.
+  intros p l. unfold path_mem. rewrite existsb_exists. split.
+  - intros [q [Hin H]]. apply path_eqb_eq in H. subst. exact Hin.
+  - intros H. exists p. split; [exact H | apply path_eqb_eq; reflexivity].
+Qed.
+
+Lemma seq_levels_ok : forall f l outs, seq_levels f l = Some outs ->
+  Forall2 (fun pl out => exists ws, f pl = ROk out ws) l outs.
+Proof.
+  induction l as [|x r IH]; intros outs H; cbn [seq_levels] in H.
+  - inversion H. constructor.
+  - destruct (f x) as [out ws|k p|] eqn:Hf; try discriminate.
+    destruct (seq_levels f r) as [outs'|] eqn:Hr; [|discriminate]. inversion H; subst.
+    constructor; [exists ws; exact Hf | apply IH; reflexivity].
+Qed.
+
+Lemma plural_paths_in : forall levels outs1 pl out1 b,
+  Forall2 (fun (pl : plevel) (out : kmap) => True) levels outs1 ->
+  In (pl, out1) (combine levels outs1) -> In b (plural_bases out1) -> In (fst pl ++ [b]) (plural_paths levels outs1).
+Proof.
+  intros levels outs1 pl out1 b F. induction F as [|[p ks] o l1 l2 _ _ IH]; cbn [combine plural_paths]; intros Hin Hb; [destruct Hin|].
+  apply in_or_app. destruct Hin as [Heq | Hin].
+  - inversion Heq; subst. left. apply in_map_iff. exists b. split; [reflexivity | exact Hb].
+  - right. apply IH; assumption.
+Qed.
+
+Lemma seq_levels2_ok : forall f levels outs1 outs, seq_levels2 f levels outs1 = Some outs ->
+  Forall2 (fun (x : plevel * kmap) out2 => exists ws, f (fst (fst x)) (snd x) = ROk out2 ws) (combine levels outs1) outs.
+Proof.
+  induction levels as [|[p ks] r IH]; intros outs1 outs H; destruct outs1 as [|o1 outs1']; cbn [seq_levels2 combine] in *; try discriminate.
+  - inversion H. constructor.
+  - destruct (f p o1) as [out2 ws|k q|] eqn:Hf; try discriminate.
+    destruct (seq_levels2 f r outs1') as [o|] eqn:Hr; [|discriminate]. inversion H; subst.
+    constructor; [exists ws; exact Hf | apply IH; exact Hr].
+Qed.
+
+Lemma Forall2_combine : forall (A B : Type) (P : A -> B -> Prop) l1 l2,
+  Forall2 P l1 l2 -> forall x y, In (x, y) (combine l1 l2) -> P x y.
+Proof.
+  intros A B P l1 l2 H. induction H; cbn [combine]; intros a b Hin; [destruct Hin|].
+  destruct Hin as [Heq | Hin]; [inversion Heq; subst; assumption | apply IHForall2; exact Hin].
+Qed.
+Lemma Forall2_in_combine : forall (A B : Type) (P : A -> B -> Prop) l1 l2 x,
+  Forall2 P l1 l2 -> In x l1 -> exists y, In (x, y) (combine l1 l2).
+Proof.
+  intros A B P l1 l2 x H. induction H; intros Hin; [destruct Hin|]. cbn [combine]. destruct Hin as [<- | Hin].
+  - eexists. left. reflexivity.
+  - destruct (IHForall2 Hin) as [y0 Hy]. exists y0. right. exact Hy.
+Qed.
+Lemma forallb2_combine : forall (A B C : Type) (f : A -> C -> bool) (l1 : list A) (l2 : list B) (l3 : list C),
+  length l1 = length l2 ->
+  Forall2 (fun (x : A * B) c => f (fst x) c = true) (combine l1 l2) l3 -> forallb2 f l1 l3 = true.
+Proof.
+  intros A B C f. induction l1 as [|a r IH]; intros [|b l2] l3 Hlen H; cbn [combine] in *; try discriminate.
+  - inversion H. reflexivity.
+  - inversion H as [|? c ? l3' Hf Hr]; subst. cbn [forallb2 fst] in *. rewrite Hf. apply (IH l2 l3'); [cbn [length] in Hlen; congruence | exact Hr].
+Qed.
+
+(** C05_cross_tree: after the two passes over a whole project — all locales, namespaces and sub-key depths — every level
+    that writes the `_other` form of a key which some locale merges at the same key path has that key as a plural *)
+Theorem project_cross_tree : forall is_key cats levels outs,
+  (forall pl, In pl levels -> NoDup (map fst (snd pl))) ->
+  merge_project_tree is_key cats levels = Some outs -> spec_cross_tree levels outs = true.
+Proof.
+  intros is_key cats levels outs Hnd H. unfold merge_project_tree in H.
+  destruct (seq_levels (fun pl => merge_level is_key cats (fst pl) (snd pl)) levels) as [outs1|] eqn:H1; [|discriminate].
+  pose proof (seq_levels_ok _ _ _ H1) as F1. pose proof (seq_levels2_ok _ _ _ _ H) as F2.
+  set (pp := plural_paths levels outs1) in *.
+  assert (Ftrue : Forall2 (fun (pl : plevel) (out : kmap) => True) levels outs1).
+  { clear -F1. induction F1; constructor; auto. }
+  assert (Hlen : length levels = length outs1) by (clear -F1; induction F1; cbn; congruence).
+  assert (Hlevel : forall pl out1, In (pl, out1) (combine levels outs1) ->
+                    LInv is_key (snd pl) (groups_of (snd pl)) out1).
+  { intros pl out1 Hin. destruct (Forall2_combine _ _ _ _ _ F1 _ _ Hin) as [ws Hr].
+    pose proof (merge_level_outcome is_key cats (fst pl) (snd pl) (Hnd pl (in_combine_l _ _ _ _ Hin))) as Ho.
+    rewrite Hr in Ho. cbn [outcome app] in Ho. apply Ho. }
+  assert (Hplural : forall pl out1 b, In (pl, out1) (combine levels outs1) -> mergeable (snd pl) b = true ->
+                     is_key b = true /\ is_plural_at b out1 = true /\ In b (plural_bases out1)).
+  { intros pl out1 b Hin Hm. pose proof (Hlevel pl out1 Hin) as Hinv.
+    assert (HbG : In b (map fst (groups_of (snd pl)))) by (apply groups_bases; apply mergeable_members; exact Hm).
+    destruct (li_plural _ _ _ _ Hinv b HbG Hm) as [_ [_ [Hik [v [Hpn Hget]]]]].
+    destruct (plural_node_shape _ _ _ Hpn) as [r [o [f ->]]]. split; [exact Hik|]. split.
+    - unfold is_plural_at. rewrite Hget. reflexivity.
+    - apply (in_plural_bases b out1 r o f). apply mget_in. exact Hget. }
+  unfold spec_cross_tree. apply (forallb2_combine _ _ _ _ levels outs1 outs Hlen).
+  apply (Forall2_impl_in _ _ _ _ _ _ F2). intros [[p ks] out1] out2 Hin [ws2 Hr2]. cbn [fst snd] in *.
+  pose proof (Hlevel (p, ks) out1 Hin) as Hinv. cbn [snd] in Hinv.
+  destruct (lone_pass_ok is_key _ p out1 out2 ws2 (li_sorted _ _ _ _ Hinv) Hr2) as [Hkeep Hlone].
+  apply forallb_forall. intros b _.
+  destruct (path_mem (p ++ [b]) (all_merged_paths levels)) eqn:Hpm; [|reflexivity]. cbn [negb orb].
+  destruct (existsb (has_form Other) (members ks b)) eqn:Hoth; [|reflexivity]. cbn [negb orb].
+  (* some level with the same path merges b *)
+  apply path_mem_In in Hpm. unfold all_merged_paths in Hpm. apply in_flat_map in Hpm. destruct Hpm as [[p' ks'] [Hpl' Hb']].
+  apply in_map_iff in Hb'. destruct Hb' as [b' [Heq Hb']]. cbn [fst snd] in *.
+  apply app_inj_tail in Heq. destruct Heq as [-> ->]. apply in_merged_bases in Hb'.
+  destruct (Forall2_in_combine _ _ _ _ _ _ F1 Hpl') as [out1' Hin'].
+  destruct (Hplural (p, ks') out1' b Hin' Hb') as [Hik [_ Hpb]].
+  assert (Hex : path_mem (p ++ [b]) pp = true).
+  { apply path_mem_In. apply (plural_paths_in levels outs1 (p, ks') out1' b Ftrue Hin' Hpb). }
+  destruct (mergeable ks b) eqn:Hm.
+  - destruct (Hplural (p, ks) out1 b Hin Hm) as [_ [Hpl _]]. unfold is_plural_at in *.
+    destruct (mget b out1) as [v|] eqn:Hget; [|discriminate]. destruct v as [iv|r o f]; [discriminate|].
+    rewrite (Hkeep b (PluralV r o f) (mget_in _ _ _ Hget) eq_refl). reflexivity.
+  - apply existsb_exists in Hoth. destruct Hoth as [kv [Hmem Hform]]. apply in_members in Hmem.
+    destruct Hmem as [Hkin [r [f [id Ht]]]]. unfold has_form, tag_form in Hform. rewrite Ht in Hform.
+    apply form_eqb_eq in Hform. subst f.
+    assert (Hkm : kv_merged ks kv = false) by (rewrite (kv_merged_tag _ _ _ _ _ _ Ht); exact Hm).
+    pose proof (li_complete _ _ _ _ Hinv kv Hkin Hkm (settled_all ks kv Hkin)) as Hget.
+    apply mget_in in Hget. pose proof (tag_leaf _ _ _ _ _ Ht) as Hleaf. rewrite Hleaf in Hget.
+    apply (Hlone (fst kv, Kept (Leaf id)) b r id Hget).
+    unfold lone_candidate. cbn [fst snd]. unfold tag_of in Ht. rewrite Hleaf in Ht. rewrite Ht, Hik, Hex. reflexivity.
+Qed.
